@@ -114,8 +114,14 @@ def compare_final(c, mv, r, rtol):
 
 def check_trajectories(ck, cases, pid, rtol=2e-7, describe=None, shard=25, what=("step", "final")):
     """Returns worst discrepancy. Reports violations through ck."""
+    import hashlib
     for c in cases:
         c["routine"] = "trajectory"
+        # solver.init with the initial-constraint update (constraint_init = the solver's own constraint) on a third of the cases whose
+        # initial state is not exact (exact initial states make the innovation matrix singular: SVD least squares, not modelled)
+        if c.get("init_mode") != "exact" and "cinit" not in c:
+            hsh = hashlib.sha256(json.dumps(gen.jsonable(c), sort_keys=True).encode()).digest()[0]
+            c["cinit"] = (hsh % 3 == 0)
     ires = lib.run_impl("solve_impl.py", {"cases": [gen.floatable(c) for c in cases]}, timeout=3000)["results"]
     terms, meta = [], []
     for i, c in enumerate(cases):
@@ -124,6 +130,8 @@ def check_trajectories(ck, cases, pid, rtol=2e-7, describe=None, shard=25, what=
             continue
         sts = r["states"]
         if "step" in what:
+            terms.append(lambda c=c: gen.coq_init(c))
+            meta.append((i, "init", None))
             for k in range(len(sts) - 1):
                 dt = c["grid"][k + 1] - c["grid"][k]
                 terms.append(lambda c=c, e=sts[k], dt=dt: gen.coq_step(c, e, dt))
@@ -153,7 +161,7 @@ def check_trajectories(ck, cases, pid, rtol=2e-7, describe=None, shard=25, what=
         ck.count(json.dumps(jc, sort_keys=True), nontrivial=len(c["grid"]) > 2 or c["lin"] == "ts1",
                  sample={k: jc[k] for k in ("kind", "q", "d", "ord", "f", "lin", "strat", "calib", "grid", "damp", "base", "init_mode")},
                  kind=c["kind"], q=c["q"], d=c["d"], lin=c["lin"], strat=c["strat"], calib=c["calib"], order=c["ord"],
-                 init=c["init_mode"], damp=str(c["damp"]), steps=len(c["grid"]) - 1, **desc)
+                 init=c["init_mode"], constraint_init=bool(c.get("cinit")), damp=str(c["damp"]), steps=len(c["grid"]) - 1, **desc)
         if "error" in ires[i]:
             ck.report(f"{pid}.{c['kind']}.exception", f"implementation raised {ires[i]['error']}", {"case": jc, "impl": ires[i]})
             bad.add(i)
@@ -166,7 +174,19 @@ def check_trajectories(ck, cases, pid, rtol=2e-7, describe=None, shard=25, what=
         if mv is None:
             skipped += 1
             continue
-        if kind_ == "step":
+        if kind_ == "init":
+            mism, w = compare_state(c, mv, r["states"][0], rtol, where=f"solver.init(constraint_init={'constraint' if c.get('cinit') else None})")
+            if not mism:
+                # the posterior marginal carried in solution_full must be the same (updated) marginal
+                N_, cc_, nb_ = gen.shape_dims(c["kind"], c["q"], c["d"])
+                pm_model, _k = gen.split_normals(mv[len(mv) - nb_ * (N_ * cc_ + N_ * N_):], N_, cc_, nb_)
+                for a in range(nb_):
+                    mism, w2 = gen.compare_normal(impl_normal(r["states"][0]["pm"][a]), pm_model[a], rtol,
+                                                  where=f"solver.init: marginal of solution_full, block {a}")
+                    if mism:
+                        break
+                    w = max(w, w2)
+        elif kind_ == "step":
             prev = r["states"][k]
             # the backward model maps into the space of the previous state: its offset / noise are measured against that marginal
             # (fixed-point: against the marginal it was merged down to, which is at least as large: use the first state as well)
